@@ -87,8 +87,16 @@ func (d *dagStoreImpl) UpdateSpec(name string, spec []byte) error {
 	if !exists(loc) {
 		return fmt.Errorf("%w: %s", errDOGFileNotExist, loc)
 	}
-	err = os.WriteFile(loc, spec, defaultPerm)
+	// Write the new definition to a temporary file and rename it into place so
+	// that the DAG file always holds either the complete old or the complete
+	// new definition, even if the process is killed while saving.
+	tmp := loc + ".tmp"
+	err = os.WriteFile(tmp, spec, defaultPerm)
 	if err != nil {
+		return err
+	}
+	if err = os.Rename(tmp, loc); err != nil {
+		_ = os.Remove(tmp)
 		return err
 	}
 	d.metaCache.Invalidate(loc)
